@@ -33,10 +33,24 @@ Content-Transfer-Encoding look-alike line, a line longer than 76 columns (soft l
 container framing is line based; nothing inside removed markup may be mistaken for it, whatever the tree looks like.
 Every container is read back with the stdlib e-mail parser once per run (writer check, harness error if it disagrees).
 
+Family "eof" (end of input inside removed markup, {"fam": "eof", "open", "seq", "tail", "lay"}): the document ENDS inside
+a removable construct that is never terminated (truncated download, template that lost its `-->`): V0 <!--X--> V1 OPEN c
+EOF. OPEN ranges over EOF_OPEN: comment `<!--`, markup declaration `<!`, marked section `<![`, `<![CDATA[`, processing
+instruction `<?` (all (bogus) comments in HTML: they run to the first `>` / `-->`, else to the end of input), the raw-text
+elements `<script>` `<style>`, and `<noscript>` `<iframe>` `<object>` `<applet>`. c ranges over every sequence over the
+construct's alphabet (comment, element: KAPPA; raw text: KAPPA_RAW; declarations: KAPPA_DECL = the symbols without `>`
+plus `]` `]]`) that leaves the construct unterminated (valid_eof). tail: "cut" (the input stops right there) or "shell"
+(the closing tags of the page follow, i.e. they are inside the construct). Layouts: blk (after a closed paragraph), inl
+(inside an open paragraph, after bare text), nest (div/span), td (open table cell; not for EPUB, whose tables are
+reported only once closed). Oracle: V0, V1(, V2) once and in order; no token of c in the text; nor the construct's own
+opening delimiter (`<!`, `<?`, `<script` ...) as literal text. Formats: html, msgbody, epub, mhtml-qp (quick), also
+msgfrag, mhtml-7bit, mhtml-b64 (thorough).
+
 Bounds (quick / thorough): seq L = 3 / 5 (html), 2 / 3 (wrappers), Lc = 2 / 3; cm: slot contents of length <= 1 for all
 39 x 39 slot pairs x 3 layouts, comment-comment pairs of total length <= 3 / 4 (layout blk), office frame for total
 length <= 2 / 3; wrap: all 96 containers x 5 constructs x sequences of length <= 1 / 3, plus length 2 for the 24
-containers with CRLF and Content-Type first (quick).
+containers with CRLF and Content-Type first (quick); eof: all 11 openers x 2 tails x contents of length <= 1 / 2 for the
+4 layouts and of length 2 / 3 (3: html only) for layout blk.
 """
 from __future__ import annotations
 
@@ -70,6 +84,15 @@ KAPPA_TEXT = {"[if": "[if c]>", "endif]": "<![endif]"}
 DECLS = ["[if c]", "[endif]", "T", "[x]"]    # `<![x]>`: marked section with an unknown keyword (bogus comment)
 CM_LAYS = ["blk", "inl", "nest"]
 CM_FRAMES = ["page", "office"]
+# family "eof": constructs still open at the end of input
+EOF_OPEN = {"cm": "<!--", "decl": "<!", "msect": "<![", "cdata": "<![CDATA[", "pi": "<?", "script": "<script>", "style": "<style>",
+            "noscript": "<noscript>", "iframe": "<iframe>", "object": "<object>", "applet": "<applet>"}
+EOF_DECLS = ("decl", "msect", "cdata", "pi")
+KAPPA_DECL = [x for x in KAPPA if ">" not in KAPPA_TEXT.get(x, x)] + ["]", "]]"]      # a declaration ends at its first ">"
+EOF_TAILS = ["cut", "shell"]
+EOF_LAYS = ["blk", "inl", "nest", "td"]
+EOF_CLOSERS = {"blk": "", "inl": "</p>", "nest": "</div>", "td": "</td></tr></table>"}
+_EOF_MARKUP = re.compile(r"<!|<\?|--!?>|<script|<style|<noscript|<iframe|<object|<applet", re.I)
 # family "wrap": line alphabet of the removed construct
 LAMBDA = ["\n", "T", "--", "--b", "H", "E", "L"]
 LAMBDA_TEXT = {"--b": "--=_b", "H": "Content-Type: text/html", "E": "Content-Transfer-Encoding: base64"}
@@ -362,6 +385,70 @@ def render_cm(case, tk: Tokens, xhtml=False):
     return page, [v0, v1, v2], hidden
 
 
+def eof_alphabet(op):
+    return KAPPA_DECL if op in EOF_DECLS else (KAPPA_RAW if op in RAW else KAPPA)
+
+
+def eof_content(seq, tok):
+    return "".join(tok() if s == "T" else KAPPA_TEXT.get(s, s) for s in seq)
+
+
+def valid_eof(case):
+    """The construct is still open at the end of input, for the HTML standard and for html.parser alike."""
+    op, seq = case["open"], case["seq"]
+    if op not in EOF_OPEN or case["tail"] not in EOF_TAILS or case["lay"] not in EOF_LAYS:
+        return False
+    if any(s not in eof_alphabet(op) for s in seq):
+        return False
+    c = eof_content(seq, lambda: "Xbbbbb")
+    if op == "cm":      # no abrupt closing, no `--` blanks `>` / `--!>` anywhere up to the end of input
+        rest = c + ("\n</p></div></td></tr></table></body></html>\n" if case["tail"] == "shell" else "")
+        return not (c.startswith(">") or c.startswith("->")) and _CEND.search(rest) is None
+    if op == "decl":    # `<!--` is the comment opener, `<![` the marked-section opener: own cases
+        return not (c.startswith("--") or c.startswith("["))
+    if op == "msect":   # `<![CDATA[` has its own case
+        return not c.upper().startswith("CDATA[")
+    return True
+
+
+def render_eof(case, tk: Tokens, xhtml=False, frag=False):
+    """Family "eof": returns (complete document, visible tokens in order, hidden tokens). The document ends inside the
+    construct case["open"]; with tail "shell" the closing tags of the page follow (inside the construct)."""
+    v0, v1 = tk.new("B"), tk.new("B")
+    xc = tk.new("X")
+    hidden = [xc]
+
+    def tok():
+        t = tk.new("X"); hidden.append(t)
+        return t
+    c = eof_content(case["seq"], tok)
+    k1 = f"<!--{xc}-->"
+    lay = case["lay"]
+    visible = [v0, v1]
+    if lay == "blk":
+        body = f"<p>{v0}</p>{k1}<p>{v1}</p>"
+    elif lay == "inl":
+        v2 = tk.new("B"); visible.append(v2)
+        body = f"<p>{v0}</p><p>{v1} {k1} {v2} "
+    elif lay == "nest":
+        body = f"<div>{v0} {k1}<span>{v1}</span>"
+    elif lay == "td":
+        v2 = tk.new("B"); visible.append(v2)
+        body = f"<p>{v0}</p><table><tr><td>{v1} {k1}</td><td>{v2} "
+    else:
+        raise ValueError(lay)
+    mark = "\x00"
+    if frag:
+        pre, post = '<div class="m" dir="ltr">', "</div>"
+        body = re.sub(r"<([A-Za-z][A-Za-z0-9]*)>", r'<\1 data-v="1">', body)
+    else:
+        pre, post = (htmlfam.xhtml_page(mark, "t") if xhtml else htmlfam.html_page(mark)).split(mark)
+    doc = pre + body + EOF_OPEN[case["open"]] + c
+    if case["tail"] == "shell":
+        doc += "\n" + EOF_CLOSERS[lay] + post + "\n"
+    return doc, visible, hidden
+
+
 def render_wrap(case, tk: Tokens):
     """Family "wrap": multi-line page with one removed construct whose content is a sequence of line fragments."""
     v = [tk.new("B") for _ in range(4)]
@@ -395,6 +482,8 @@ def render_case(fmt, case, tk):
         return render_cm(case, tk, xhtml=(fmt == "epub"))
     if fam == "wrap":
         return render_wrap(case, tk)
+    if fam == "eof":
+        return render_eof(case, tk, xhtml=(fmt == "epub"), frag=(fmt == "msgfrag"))
     body, visible, hidden = render_body(case, tk, xhtml=(fmt == "epub"))
     if fmt == "msgfrag":
         # an HTML mail body as Outlook stores it when it is a fragment: no <html>/<body> shell, tags carrying attributes
@@ -422,6 +511,9 @@ def evaluate(fmt, case, seed=0):
         return fails, ("unparsed",)
     if leaked:
         fails.append(("leak", f"removed content {leaked} appears in text {text!r} for body {body!r}"))
+    elif case.get("fam") == "eof" and _EOF_MARKUP.search(text):
+        fails.append(("leak", f"markup of the unterminated construct {_EOF_MARKUP.search(text).group(0)!r} appears as text: "
+                              f"text {text!r} for body {body!r}"))
     vis_found = [t for t in found if t in visible]
     miss = [t for t in visible if t not in vis_found]
     if miss:
@@ -432,6 +524,8 @@ def evaluate(fmt, case, seed=0):
     elif vis_found != visible:
         fails.append(("order", f"visible text out of order: text {text!r} for body {body!r}"))
     outcome = (tuple(visible.index(t) for t in vis_found), len(leaked))
+    if case.get("fam") == "eof":
+        outcome += (bool(_EOF_MARKUP.search(text)),)
     return fails, outcome
 
 
@@ -471,6 +565,19 @@ def shrinks(case):
                 c[key] = dflt
                 yield c
         return
+    if fam == "eof":
+        seq = case["seq"]
+        for i in range(len(seq)):
+            c = dict(case, seq=seq[:i] + seq[i + 1:])
+            if valid_eof(c):
+                yield c
+        for key, dflt in (("tail", "cut"), ("lay", "blk"), ("open", "cm")):
+            if case[key] != dflt:
+                c = dict(case)
+                c[key] = dflt
+                if valid_eof(c):
+                    yield c
+        return
     if fam == "wrap":
         seq = case["seq"]
         for i in range(len(seq)):
@@ -506,6 +613,10 @@ def embeds(small, big):
         if small.get("frame", "page") not in ("page", big.get("frame", "page")) or small["lay"] not in ("blk", big["lay"]):
             return False
         return all(a["kind"] == b["kind"] and _sub(a["seq"], b["seq"]) for a, b in zip(small["k"], big["k"]))
+    if small.get("fam") == "eof":
+        if small["open"] != big["open"] or small["tail"] not in ("cut", big["tail"]) or small["lay"] not in ("blk", big["lay"]):
+            return False
+        return _sub(small["seq"], big["seq"])
     if small.get("fam") == "wrap":
         if (small["r"] != big["r"] and small["seq"]) or any(small[d] not in (W.DEFAULT[d], big[d]) for d in W.DEFAULT):
             return False      # an empty construct stands for every construct
@@ -571,6 +682,22 @@ def cases_wrap(tier):
         for r in WRAP_R:
             for seq in _seqs(LAMBDA, 0, hi):
                 yield dict(cont, fam="wrap", r=r, seq=seq)
+
+
+def cases_eof(tier, fmt):
+    """Family "eof" for one format."""
+    quick = tier == "quick"
+    lo = 1 if quick else 2                                   # all layouts
+    hi = 2 if quick else (3 if fmt == "html" else 2)         # layout blk
+    for op in EOF_OPEN:
+        for seq in _seqs(eof_alphabet(op), 0, max(lo, hi)):
+            for lay in EOF_LAYS:
+                if (lay == "td" and fmt == "epub") or (len(seq) > lo and lay != "blk"):
+                    continue
+                for tail in EOF_TAILS:
+                    case = {"fam": "eof", "open": op, "seq": seq, "tail": tail, "lay": lay}
+                    if valid_eof(case):
+                        yield case
 
 
 def cases_cform(tier, fmt, ctxs):
@@ -643,6 +770,8 @@ def cases_for(tier, fmt):
     yield from cases_cform(tier, fmt, ctxs)
     if quick and fmt in ("mhtml-7bit", "mhtml-b64"):
         return      # quick: comment forms go through one MHTML encoding (all three in thorough)
+    if not (quick and fmt == "msgfrag"):
+        yield from cases_eof(tier, fmt)
     yield from cases_cm(tier, fmt)
 
 
@@ -716,7 +845,9 @@ def run(ctx):
                    "of length <= 1 and those with a comment symbol up to Lc; cm: every pair of removable constructs (comment / "
                    "markup declaration / raw-text element) with contents over the 12-symbol comment alphabet around visible "
                    "text, x layouts x frames; wrap: every MIME tree (6 shapes x 4 encodings x 2 header orders x 2 line "
-                   "terminators) x 5 removed constructs x line sequences over the 7-symbol line alphabet; all rendered to real "
+                   "terminators) x 5 removed constructs x line sequences over the 7-symbol line alphabet; eof: every document that ends inside "
+                   "an unterminated removable construct (11 openers x contents over the construct's alphabet x 2 tails x 4 "
+                   "layouts); all rendered to real "
                    "markup and parsed by the real extractors; states = (format, case) executed, transitions = parser events "
                    "fed; distinct_nontrivial = distinct (visible-token order, leak count) outcomes",
            "per_format": per_fmt, "per_family": per_fam, "outcomes": outcomes, "exhaustive": True,
@@ -727,6 +858,11 @@ def run(ctx):
                       "cm_bounds": "all pairs of slots with content length <= 1 x 3 layouts; comment-comment pairs with each <= 2 (3) "
                                    "and total <= 3 (4), layout blk; office frame for total <= 2 (3); quick: html, msgbody, epub "
                                    "(XML-safe subset), mhtml-qp; thorough: also mhtml-7bit, mhtml-b64",
+                      "eof_openers": EOF_OPEN, "eof_alphabets": {"comment/element": KAPPA, "raw_text": KAPPA_RAW, "declaration": KAPPA_DECL},
+                      "eof_tails": EOF_TAILS, "eof_layouts": EOF_LAYS,
+                      "eof_bounds": "contents of length <= 1 (2) for all layouts x tails, length 2 (3 for html, thorough) for layout "
+                                    "blk; quick: html, msgbody, epub (no td layout), mhtml-qp; thorough: also msgfrag, mhtml-7bit, "
+                                    "mhtml-b64",
                       "wrap_alphabet": LAMBDA, "wrap_constructs": WRAP_R,
                       "wrap_containers": {"shapes": W.SHAPES, "enc": W.ENCS, "hdr": W.HDRS, "eol": ["CRLF", "LF"]},
                       "wrap_bounds": "sequences of length <= 1 for all 96 containers, length 2 for the 24 with CRLF and "
@@ -739,4 +875,8 @@ def run(ctx):
                             "(no leading '>' or '->', no '--' + blanks/'!' + '>'); `<!x>` / `<![if x]>` declarations are (bogus) "
                             "comments; a raw-text element ends at its first end tag even after an unclosed '<!--'",
                             "MHTML containers hold exactly one text/html part (the root); frames saved as further text/html "
-                            "parts are not generated"]}
+                            "parts are not generated",
+                            "eof: a comment / declaration / processing instruction / raw-text or removable element that is still "
+                            "open at the end of input extends to the end of input (HTML standard: eof-in-comment etc.); its content "
+                            "and its opening delimiter are not visible text; declaration contents are restricted to those without "
+                            "'>' (the first '>' ends a bogus comment)"]}
